@@ -731,10 +731,14 @@ impl WaitGroup {
     pub fn new() -> Self {
         WaitGroup(wg::WaitGroup::new())
     }
+    #[track_caller]
     pub fn add(&self, n: usize) -> Self {
+        rt::sched_point_throttled(rt::site_hash(std::panic::Location::caller()));
         WaitGroup(self.0.add(n))
     }
+    #[track_caller]
     pub fn done(&self) -> usize {
+        rt::sched_point_throttled(rt::site_hash(std::panic::Location::caller()));
         self.0.done()
     }
     pub fn waitings(&self) -> usize {
